@@ -198,3 +198,13 @@ def run(cx):
     _run_za(cx)
     # Z_A and Z_B enter the KDF and both confirmation hashes: ZA = SM3(ENTL || ID || a || b || G || P)
     check_za(cx)
+
+
+_run_kdf = run
+
+
+def run(cx):
+    from .C05 import check_kdf
+    _run_kdf(cx)
+    # the agreed key is KDF(xV || yV || ZA || ZB, klen): the KDF itself (counter from 1, one SM3 per block, truncation)
+    check_kdf(cx, 'gm_sm2::util::kdf')
